@@ -43,7 +43,7 @@ def read_ndjson(path):
 
 def run_ddsmt(workdir, input_text, spec, opts=(), entry='launcher',
               timeout=180, ext='.smt2', env_extra=None, cmd_extra=(),
-              cc_spec=None, pre_outfile=None, popen_hook=None):
+              cc_spec=None, pre_outfile=None, popen_hook=None, prefix=None):
     """One ddSMT session in `workdir` (created; caller removes it)."""
     os.makedirs(workdir, exist_ok=True)
     tmp = os.path.join(workdir, 'tmp')
@@ -82,6 +82,8 @@ def run_ddsmt(workdir, input_text, spec, opts=(), entry='launcher',
         argv = [common.PY, os.path.join(common.REPO, 'bin', 'ddsmt')] + ddargs
     else:
         raise ValueError(entry)
+    if prefix:
+        argv = list(prefix) + argv
     env = dict(os.environ)
     env['TMPDIR'] = tmp
     env['DDSMT_REPO'] = common.REPO
